@@ -276,3 +276,5 @@ META = {
     "assumptions": ["CPython decodes a string literal char-wise (validated each run against ast.literal_eval)", "json.dumps / repr quote char-wise (validated each run)",
                     "attrs/dataclasses metadata is rendered through str(dict), i.e. repr of the key"],
 }
+if isinstance(META.get("bounds"), dict) and "quick" in META["bounds"]:
+    META["bounds"]["quick"] += '; every key of the odd / reserved-variant / symbol-prefixed pools as a field of a child model at depth 1 and 2 x 4 frameworks x 2 layouts'
